@@ -601,7 +601,27 @@ def shipped_excluded(case):
     if any(g[0] in ("RX", "RZ", "RY") and g[3] == 0 for g in case["gates"]) and "dropzero" not in CHECK._variant():
         return True
     return case["compiler"] == "cavityqed" and case["shape"] != "rectangular" and \
-        any(g[0] in ("ISWAP", "SQRTISWAP") for g in case["gates"])
+        any(g[0] in ("ISWAP", "SQRTISWAP") for g in case["gates"]) and _cavity_swap_raises()
+
+
+_CAVITY = {}
+
+
+def _cavity_swap_raises():
+    """behavioural probe (once per run): does the cavity-QED swap compiler still emit an array tlist next to scalar
+    coefficients for a sampled shape (fixes/C12-4.patch makes it always rectangular)?"""
+    if "r" not in _CAVITY:
+        case = {"compiler": "cavityqed", "n": 2, "shape": "hann", "num_samples": 5,
+                "gates": [["ISWAP", [0, 1], None, None]], "mode": None}
+        try:
+            comp, gates = build_shipped(case)
+            comp.compile(gates)
+            _CAVITY["r"] = False
+        except TypeError:
+            _CAVITY["r"] = True
+        except Exception:
+            _CAVITY["r"] = True
+    return _CAVITY["r"]
 
 
 def build_shipped(case):
@@ -691,7 +711,10 @@ class C12(PropertyCheck):
                   "for the channel's kind; for channels of scalar/discrete pulses the step function of the compiled arrays equals the "
                   "scheduled function at every time t (instruction waveform inside its window, 0 elsewhere); for channels of continuous "
                   "pulses every (grid point, coefficient) pair is explained by the schedule (inside a window (s, s+dur] it is that "
-                  "instruction's sample, elsewhere 0) and every kept sample of every instruction is present.  Without Sep the "
+                  "instruction's sample, elsewhere 0) and every kept sample of every instruction is present.  With the repaired idle-gap test (fixes/C12-3.patch) the hypothesis Sep is "
+                  "replaced by 'every gap is 0 or above 1e-12 of the largest start time' (gap_repaired_concatenate) and the closed "
+                  "form meets the statement from Chain alone (closed_channel_is_schedule); _schedule and the grouping loop of compile "
+                  "are proved to keep every (instruction, start) pair and to put exactly the pulses labelled l on channel l.  Without Sep the "
                   "statement is refuted on the model by decide (scale_counterexample: durations [1e-9, 1e4] give grid "
                   "[0,1e-9,0,1e4+1e-9]; gap_counterexample) and on the code by replay.  The model is tied to GateCompiler.compile / "
                   "_concatenate_pulses by an exact correspondence on dyadic inputs spanning 2^-30..2^20 and to the spin-chain, "
